@@ -21,7 +21,9 @@ import time
 VERIF = os.path.dirname(os.path.dirname(os.path.abspath(__file__)))
 REPO = os.environ.get('VERIF_REPO', '/repo')
 CACHE = os.path.join(VERIF, '.cache')
-SCRATCH = '/tmp/solstat-verif-build'
+# one scratch area per framework instance (a `vp run` snapshot builds independently of /verif); the path is fixed per instance so that
+# cargo's fingerprints stay valid between builds
+SCRATCH = '/tmp/solstat-verif-build' + ('' if VERIF == '/verif' else '-' + hashlib.sha256(VERIF.encode()).hexdigest()[:8])
 PREP_VERSION = '5'
 COPY = ['src', 'Cargo.toml', 'Cargo.lock', 'docs', 'README.md', 'Solstat.toml']
 ENV = dict(os.environ, CARGO_NET_OFFLINE='true', CARGO_TERM_COLOR='never')
